@@ -9,18 +9,13 @@ Import ListNotations.
 Local Open Scope string_scope.
 
 Definition C03_listed : list string := [
-  "Octree.origin";                          (* persists before storing *)
-  "ObjectBase.last_focus";                  (* stores, never persists *)
   "Data.association";
   "DataType.primitive_type";
-  "GroupType.allow_move_content";
-  "GroupType.allow_delete_content";
   "PropertyGroup.name";
   "PropertyGroup.association";
   "PropertyGroup.property_group_type";
   "PropertyGroup.properties";
   "GeoImage.tag";
-  "DataType.units";                         (* persists "attributes", but no attribute-map entry routes the field *)
   "Drillhole.default_collocation_distance";
   "PropertyGroup.allow_delete";
   "Workspace.contributors";                 (* no persistence call exists for the project header *)
